@@ -19,7 +19,8 @@ package line
 //
 //@ func newAsyncCtx
 //@   ensures result != nil && isfresh(result) && result.ctx == ctx && result.call == call && result.param == param
-//@   modifies region($alloc)
+//@   ensures #buffered result.rChan != nil && chancap(result.rChan) == 1
+//@   modifies region($alloc), region($chancap), region($chanlen), region($chanclosed)
 //
 //@ func AsyncCtx.SetR
 //@   trusted channel send on the request's own 1-buffered result channel (R() receives it); the contract only records whose result is delivered
